@@ -10,6 +10,7 @@ import (
 	"time"
 
 	"github.com/dgrr/http2"
+	"github.com/valyala/fasthttp"
 	xh2 "golang.org/x/net/http2"
 	"pgregory.net/rapid"
 
@@ -650,14 +651,25 @@ type c12PingCase struct {
 }
 
 func c12PingOnce(serverPings, earlier int, interval time.Duration) (unanswered int, resolved bool, err error, inconcl string) {
-	env, e := speer.NewEnv(http2.ClientOpts{PingInterval: interval, MaxResponseTime: -1})
+	// a bare Conn from Dialer.Dial: ConfigureClient does not hand ClientOpts.PingInterval to its Dialer (the
+	// connections of a Client ping every 3 s whatever is configured; noted in DESIGN 12.2, outside the listed properties)
+	conn, env, e := speer.DialBare(http2.ConnOpts{PingInterval: interval})
 	if e != nil {
-		return 0, false, nil, "cannot set the client up: " + e.Error()
+		return 0, false, nil, "cannot dial: " + e.Error()
 	}
 	defer env.Close()
+	defer func() { _ = conn.Close() }()
 	sc := env.Conn(0)
 	if sc == nil {
 		return 0, false, nil, "no connection"
+	}
+	do := func(tag string) *http2.Ctx {
+		req, res := fasthttp.AcquireRequest(), fasthttp.AcquireResponse()
+		req.SetRequestURI("https://example.com/" + tag)
+		req.Header.SetMethod("GET")
+		ctx := &http2.Ctx{Request: req, Response: res, Err: make(chan error, 1)}
+		conn.Write(ctx)
+		return ctx
 	}
 	answer := func(tag string) bool {
 		dl := time.Now().Add(5 * time.Second)
@@ -680,17 +692,17 @@ func c12PingOnce(serverPings, earlier int, interval time.Duration) (unanswered i
 	}
 	for i := 0; i < earlier; i++ {
 		tag := fmt.Sprintf("e%d", i)
-		call := env.Do(speer.ReqSpec{Tag: tag, Method: "GET", Path: "/" + tag})
+		ctx := do(tag)
 		if !answer(tag) {
 			return 0, false, nil, "an earlier request did not arrive"
 		}
 		select {
-		case <-call.Done:
+		case <-ctx.Err:
 		case <-time.After(5 * time.Second):
 			return 0, false, nil, "an earlier exchange did not finish"
 		}
 	}
-	last := env.Do(speer.ReqSpec{Tag: "last", Method: "GET", Path: "/last"})
+	last := do("last")
 	for i := 0; i < serverPings; i++ {
 		_ = sc.Write(rawframe.Append(nil, rawframe.Ping, 0, 0, []byte{1, 2, 3, 4, 5, 6, byte(i >> 8), byte(i)}))
 	}
@@ -714,16 +726,16 @@ func c12PingOnce(serverPings, earlier int, interval time.Duration) (unanswered i
 	sc.NoPingAck.Store(true)
 	mark := len(sc.EventsCopy())
 	select {
-	case <-last.Done:
+	case err = <-last.Err:
 		resolved = true
-	case <-time.After(15*time.Second + 40*interval):
+	case <-time.After(10*time.Second + 60*interval):
 	}
 	for _, ev := range sc.EventsCopy()[mark:] {
 		if ev.Kind == "ping" {
 			unanswered++
 		}
 	}
-	return unanswered, resolved, last.Err, ""
+	return unanswered, resolved, err, ""
 }
 
 func c12PingRun(c c12PingCase) Outcome {
@@ -764,6 +776,6 @@ func TestC12(t *testing.T) {
 		"1..4 requests (bodies 0..70000) through RoundTrip with MaxResponseTime 250 ms to a scripted TLS server whose well-formed response stream (split header blocks, DATA chunked, shared HPACK entries) is recorded and then: delivered up to any octet (incl. inside a frame) or entirely; mutated frame-wise (duplicate, delete, swap, bit flip, lying length, type/flags/stream-id change); or extended with a scripted adversary at any frame position (RST_STREAM, GOAWAY, oversized frame, HPACK garbage, unsolicited PUSH_PROMISE, DATA on an idle stream, WINDOW_UPDATE overflow, invalid SETTINGS, unknown frame type, 300 or 700 PINGs); followed by silence, close or reset; or with the client's own writes failing from any octet, counted from the start or from the moment the server's stream is delivered (so that replies hit the failure); or with Client.Close() fired before the answers, after them, or concurrently with further RoundTrips. Oracle: every RoundTrip returns exactly once within MaxResponseTime plus a margin (a miss is reported with the client's goroutine dump); a success carries exactly the complete well-formed response an independent parser (x/net Framer + strict reference HPACK) finds on that stream in the delivered octets; nothing succeeds after Close without an answer; a follow-up batch on a fresh connection gets its own responses; after Close no loop of the client remains; the process survives (crash journal). Non-trivial = cut inside a frame, a mutation, an adversary, or Close racing requests; distinct by case hash.")
 	defer s.finish()
 	runLane(s, Lane[c12Case]{Name: "faults", Journal: true, Quick: 500, Thor: 30000, Gen: c12Gen, Run: c12Run})
-	runLane(s, Lane[c12PingCase]{Name: "silence", Quick: 24, Thor: 800, Gen: c12PingGen, Run: c12PingRun})
+	runLane(s, Lane[c12PingCase]{Name: "silence", Quick: 80, Thor: 4000, Gen: c12PingGen, Run: c12PingRun})
 	runEnum(s, EnumLane[c12Case]{Name: "cuts", Journal: true, N: 3 * c12EnumCuts, At: c12EnumAt, Run: c12Run, QuickStride: 5, ThorStride: 1})
 }
